@@ -483,7 +483,7 @@ func validateSession(frags []*fragInfo, modSrc map[string]string) string {
 }
 
 func evalSessions(t *testing.T, rec *ev.Rec) {
-	n := ev.N(1200, 12000)
+	n := ev.N(3000, 12000)
 	ev.RapidCheck(t, "eval-sessions", n, 2, func(rt *rapid.T) {
 		g := &sessGen{rt: rt, opt: drawOpt(rt), mods: map[string][]gen.Stmt{}}
 		g.d = drawSessionDisabled(rt)
